@@ -526,7 +526,7 @@ func workerFresh(w *core.Worker, gs []*gram) {
 	}
 }
 
-// historyList returns every sequence of length 1..maxLen over the grammars: shorter first, then
+// historyList returns two sweeps (see below) followed by every sequence of length 1..maxLen over the grammars: shorter first, then
 // lexicographic in grammar order (simplest first); sequences containing a Heavy grammar (js) are
 // limited to length 2 and moved to the end of the list (so that idx%N spreads them evenly over the
 // workers and a deadline cuts them first).
@@ -559,7 +559,21 @@ func historyList(gs []*gram, maxLen int) [][]int {
 	for l := 1; l <= maxLen; l++ {
 		recur(l)
 	}
-	return append(light, heavy...)
+	// Two sweeps come first: every light grammar once, ascending and descending, each sweep in one
+	// process. They are outside the length bound and add nothing to the enumeration as such, but for
+	// every ordered pair (a, b) one of them generates a before b in the same process, so that a leak
+	// that persists in the process (a package-level cache, a shared slice) shows up after ~2N
+	// generations even when a loaded machine cuts the enumeration short.
+	var up, down []int
+	for gi := range gs {
+		if !gs[gi].Heavy {
+			up = append(up, gi)
+			down = append([]int{gi}, down...)
+		}
+	}
+	out := [][]int{up, down}
+	out = append(out, light...)
+	return append(out, heavy...)
 }
 
 func histNames(gs []*gram, h []int) []string {
@@ -708,6 +722,7 @@ func workerOrder(w *core.Worker, gs []*gram) {
 	plan := parsePlan(w.Args[2], w.Args[3])
 	full := w.Args[4] == "1"
 	deadline, _ := strconv.ParseInt(w.Args[5], 10, 64)
+	var procPrefix []int // grammars generated so far in this process
 	for pi, gi := range plan.gis {
 		g := gs[gi]
 		var b *baseline
@@ -728,9 +743,12 @@ func workerOrder(w *core.Worker, gs []*gram) {
 				if b.n != plan.ns[pi] {
 					sum.Unstable = fmt.Sprintf("%s: %d map iterations in this process, %d in the measuring process", g.Name, b.n, plan.ns[pi])
 				}
+				procPrefix = append(procPrefix, gi, gi)
 				if ref, err := refs.get(gi); err == nil {
 					if d := compare(b.out, ref); d != nil {
-						w.Emit(rec{Phase: "order", G: gi, Diff: d, Note: "run 0 (all offsets 0, warm process) differs from the fresh-process reference"})
+						// a history effect: this process generated procPrefix (each explored grammar, twice or more) before
+						w.Emit(rec{Phase: "order", G: gi, Diff: d, Hist: append([]int{}, procPrefix...), Pos: len(procPrefix) - 1, Prefix: append([]int{}, procPrefix...),
+							Note: "run 0 (all offsets 0, warm process) differs from the fresh-process reference"})
 					}
 				}
 			}
@@ -997,6 +1015,7 @@ type agg struct {
 	c            *core.Ctx
 	gs           []*gram
 	orderFlagged map[int]bool // grammars for which the enumeration found a map-order dependence
+	hp           *histPhase   // collects history effects of every phase
 }
 
 func (a *agg) name(gi int) string {
@@ -1137,6 +1156,12 @@ func run(c *core.Ctx) {
 		}
 	}
 	dl := strconv.FormatInt(deadline.Unix(), 10)
+	// Quick: the map-order phase may use at most half of the budget, so that a loaded machine cannot
+	// starve the histories (both parts stop at their deadline and report what they did not reach).
+	dlOrder := dl
+	if c.Quick() {
+		dlOrder = strconv.FormatInt(c.Start.Add(c.Deadline.Sub(c.Start)/2).Unix(), 10)
+	}
 
 	var small, big []int
 	for gi, g := range gs {
@@ -1154,11 +1179,13 @@ func run(c *core.Ctx) {
 		covered[g.Name] = "map order not explored in this tier (histories/fresh processes only)"
 	}
 
+	a.hp = &histPhase{a: a, refdir: refdir, byKey: map[string][]rec{}}
+
 	// ---- phase 1: map iteration order of the feature grammars + json/simple/test (the real risk first)
 	if ctl {
-		a.orderPhase(refdir, refRecs, small, dl, covered)
+		a.orderPhase(refdir, refRecs, small, dlOrder, covered)
 	} else {
-		a.repsPhase(refdir, dl)
+		a.repsPhase(refdir, dlOrder)
 	}
 	endPhase("map_order_small_grammars")
 
@@ -1173,14 +1200,14 @@ func run(c *core.Ctx) {
 		maxLen = 3
 	}
 	hl := historyList(gs, maxLen)
-	for _, i := range []int{len(gs) + 1, len(hl) - 1} {
+	for _, i := range []int{len(gs) + 3, len(hl) - 1} {
 		if i >= 0 && i < len(hl) {
 			c.Sample(map[string]any{"kind": "history", "generations_in_one_process": histNames(gs, hl[i])})
 		}
 	}
 	c.Set("histories_per_setting", len(hl))
 	c.Set("history_max_len", maxLen)
-	hp := &histPhase{a: a, refdir: refdir, byKey: map[string][]rec{}}
+	hp := a.hp
 	// One enumeration in which worker s runs under GOMAXPROCS {1,2,16}[s%3] (quick: the only one).
 	hp.run(maxLen, dl, 0)
 	wg.Wait()
@@ -1367,14 +1394,7 @@ func (h *histPhase) run(maxLen int, dl string, gmp int) {
 					}
 					return
 				}
-				c.Outcome("history:differs", 1)
-				key := "history:" + h.a.name(r.G) + ":" + r.Diff.File
-				h.mu.Lock()
-				if _, ok := h.byKey[key]; !ok {
-					h.keys = append(h.keys, key)
-				}
-				h.byKey[key] = append(h.byKey[key], r)
-				h.mu.Unlock()
+				h.add(r)
 			}
 		},
 		OnDeath: func(idx int, desc, how, tail string) {
@@ -1385,6 +1405,19 @@ func (h *histPhase) run(maxLen int, dl string, gmp int) {
 		opts.Env = []string{"GOMAXPROCS=" + strconv.Itoa(gmp)}
 	}
 	c.RunShards(opts)
+}
+
+// add records one generation that differs from its fresh-process reference because of what the
+// process generated before.
+func (h *histPhase) add(r rec) {
+	h.a.c.Outcome("history:differs", 1)
+	key := "history:" + h.a.name(r.G) + ":" + r.Diff.File
+	h.mu.Lock()
+	if _, ok := h.byKey[key]; !ok {
+		h.keys = append(h.keys, key)
+	}
+	h.byKey[key] = append(h.byKey[key], r)
+	h.mu.Unlock()
 }
 
 func (h *histPhase) report() {
@@ -1402,8 +1435,8 @@ func (h *histPhase) report() {
 				break
 			}
 			cand := recs[i].Hist[:recs[i].Pos+1]
-			if len(cand) < 2 {
-				continue
+			if len(cand) < 2 || len(cand) > 3 {
+				continue // a sweep: minimised below
 			}
 			if diffs := runSeq(c, h.refdir, cand); len(diffs) > 0 {
 				chosen, seq = &recs[i], cand
@@ -1416,7 +1449,7 @@ func (h *histPhase) report() {
 			chosen, seq = &recs[0], recs[0].Prefix
 			tried := map[int]bool{}
 			for _, x := range recs[0].Prefix[:len(recs[0].Prefix)-1] {
-				if tried[x] || gs[x].Heavy || len(tried) >= 16 {
+				if tried[x] || gs[x].Heavy || len(tried) >= 32 {
 					continue
 				}
 				tried[x] = true
@@ -1503,6 +1536,10 @@ func (a *agg) orderRecord(raw json.RawMessage, progress map[int]*rec) {
 		}
 		c.Outcome("order:differs", 1)
 		if len(r.K) == 0 {
+			if a.hp != nil && len(r.Prefix) > 0 {
+				a.hp.add(r) // reported (and minimised) with the other history effects
+				return
+			}
 			c.Violate("history:"+g.Name+":"+r.Diff.File, fmt.Sprintf("%s: %s: %s", g.Name, r.Note, r.Diff), replayCase{Kind: "seq", Seq: []string{g.Name, g.Name}})
 			return
 		}
